@@ -9,6 +9,7 @@ class Gen:
 
     def __init__(self, seed, conf=None, names=None, maxblk=3, spare=True, profile="mixed", data_seed=None):
         self.rng = random.Random(seed)
+        self.nrng = random.Random(seed * 31 + 7)      # separate stream: option noise that leaves the histories as they were
         self.conf = conf or arr.Conf(nd=self.rng.choice([2, 2, 3]), np=self.rng.choice([1, 2, 2, 3]), copies=2)
         if profile == "inodes":
             self.conf.inomode = True
@@ -614,6 +615,8 @@ class Gen:
             if self.ranges and self.rng.random() < 0.15:
                 fl += self._range()
             rules = ["pread,/p,0,shortread,%d" % self.rng.choice([1, 700, 1023])] if self.profile == "detect" and self.rng.random() < 0.3 else None
+            if self.nrng.random() < 0.12:
+                fl.append("-N")                   # check / fix: no search for copies in the array
             kw = {}
             if self.filters and self.rng.random() < 0.6:
                 kw["filt"] = self._filter()
@@ -621,6 +624,8 @@ class Gen:
                                            self.rec.check(*fl, rules=rules, **kw)[1]["exit"])
         if name == "fix":
             fl = self._range() if (self.ranges and self.rng.random() < 0.25) else []
+            if self.nrng.random() < 0.12:
+                fl.append("-N")
             kw = {}
             if self.filters and self.rng.random() < 0.75:
                 kw["filt"] = self._filter()
